@@ -130,8 +130,7 @@ def Unproved : List String :=
    "UniqueVariableNamesChecker", "NoUndefinedVariablesChecker", "NoUnusedVariablesChecker",
    "KnownDirectivesChecker", "KnownArgumentNamesChecker", "ValuesOfCorrectTypeChecker",
    "ProvidedRequiredArgumentsChecker", "VariablesInAllowedPositionChecker",
-   "OverlappingFieldsCanBeMergedChecker", "UniqueInputFieldNamesChecker", "KnownFragmentNamesChecker",
-   "UniqueFragmentNamesChecker", "UniqueOperationNameChecker", "ExecutableDefinitionsChecker",
-   "LoneAnonymousOperationChecker"]
+   "OverlappingFieldsCanBeMergedChecker", "UniqueInputFieldNamesChecker",
+   "UniqueFragmentNamesChecker", "UniqueOperationNameChecker"]
 
 end PyGql.Validate.Spec
